@@ -137,6 +137,9 @@ def language(ck, tier, seed):
         if o.get("skipped"):
             ck.cov["not_run_unbounded_growth"] = ck.cov.get("not_run_unbounded_growth", 0) + 1
             continue
+        if o.get("crash"):
+            ck.mismatch("language/process-crash/" + tag, {"src": c["src"], "what": o["crash"], "runtime_report": o["excerpt"][:1500]}, replay={"kind": "lang", "prog": p})
+            continue
         if "parse" in o:
             ck.mismatch("language/parse/" + tag, {"src": c["src"], "what": o["parse"]})
             continue
